@@ -61,6 +61,10 @@ from vfw.stream import (Stream, Decisions, explore, affine_probe, UnownedRandomn
 PROPERTY = "C05"
 RULE = ("cells = (Gaussian: parameterisation x matrix form x dim) + (Lognormal form x dim) + gallery + "
         "(GMRF: physical_dim x n x bc x order) + (generator family x parameter-form x dim) + "
+        "(parameter representation: 14 families x {python int, list, int64, int32, float32}; inside the cell every scalar/vector "
+        "parameter form x dim {1,2,3} x N {1,2,3} x {rng=, global}: real draws from equal generator states must equal those of the "
+        "object built from the same integer-valued numbers as float64, its logpdf at those draws must equal the float64 object's, and "
+        "for the 7 generator families the recorded request to the primitive generator must be the textbook float64 transform) + "
         "(MHN: alpha x beta x gamma, internal sampler and public path) + (discipline objects) + (conditionals) + "
         "(derived objects: conditioned conditionals, joint members/reductions, scripted user-defined sampler, gallery) + "
         "(user-supplied sampler: dim x memory owner of what sample_func returns; inside the cell every return form x route to the "
@@ -78,7 +82,11 @@ BOUND = {
              "x N {1,2,3} x {rng= keyword, rng positional, global numpy}, plus dim 76 (above the sparse switch) with N {1,2}; Lognormal 4 forms x dim "
              "{1,2,3}; gallery BivariateGaussian; GMRF 1-D n=2..6 and 2-D 2x2, 3x3 x bc {zero, periodic, neumann} x order "
              "{0,1,2}; 7 generator families x all scalar/vector parameter forms x dim {1,2,3} x N {1,2,3} x 3 paths (law on 4^dim..5^dim "
-             "grids for keyword and global, recorded calls and draws of the positional form equal to the keyword form); MHN "
+             "grids for keyword and global, recorded calls and draws of the positional form equal to the keyword form); "
+             "parameter representation: {Normal, Gamma, Laplace, Uniform, Beta, InverseGamma, Cauchy, Gaussian cov/prec/sqrtcov/sqrtprec, "
+             "Lognormal, GMRF, ModifiedHalfNormal} x 5 representations {python int, list of floats / python float, int64, int32, float32 "
+             "(numpy scalars for scalar parameters, ndarrays for vectors)} of integer-valued parameters of modulus > 1 x all scalar/vector "
+             "forms x dim {1,2,3} (MHN dim 1, GMRF dim 2,3) x N {1,2,3} x {rng=, global numpy}; MHN "
              "internal sampler 5 alpha x 2 beta x 6 gamma (keyword, global) and public path 5 x 2 x 6 (keyword, positional, "
              "global), 8-point proposal alphabets, complete decision trees (positional: whole alphabet, accept branch); "
              "48 discipline objects x N {1,2,3} x 3 rng kinds {RandomState, advanced RandomState, Generator} x 4 call forms; "
@@ -121,6 +129,11 @@ ASSUMPTIONS = [
     "discarded are tolerated (columns must be draws of this call, each used once, in call order); return forms other than a "
     "1-D array(-subclass) of length dim ((dim,1), (1,dim), list, 0-d, python float) may be refused with any exception; "
     "user callables of samplers (MH/CWMH proposals) are not direct draws from a distribution and belong to the sampler properties",
+    "parameter representation: draws are compared with the float64 object of the same numbers from equal real-generator states, "
+    "bit-identical for the integer and list representations (int -> float64 conversion is exact) and to relative 1e-5 for float32 "
+    "(1/rate, sqrt(cov) are rounded in float32); refusing a representation at construction is accepted, raising at sample() when "
+    "the float64 twin draws is not; only integer-valued parameters of one value set per catalogue are covered, object-dtype and "
+    "0-d array parameters are not",
     "alternative routes to a derived object (conditioning order, joint reduction, stand-alone construction with the same "
     "parameters) are required to draw bit-identically from equal generator states: same class, same parameters",
 ]
@@ -1162,6 +1175,210 @@ def _eval_gen(cell, res):
             if res.sample is None:
                 res.sample = {"family": fam, "N": N, "path": path, "generator": rec.calls[0]["gen"],
                               "params": rec.calls[0]["params"], "size": rec.calls[0]["shape"], "draws": M}
+    agg.emit(res)
+    return res
+
+
+# =========================================================================================
+# engine B': representation of the parameters (float64 / python int / list / integer ndarray / float32)
+# =========================================================================================
+REPS = ("pyint", "list", "int64", "int32", "float32")
+REP_PATHS = ("rng", "global")
+# family -> (class, ((parameter, allowed forms), ...), textbook request of the primitive generator or None)
+REP_FAMILIES = {
+    "Normal": ("Normal", (("mean", "sv"), ("std", "sv")), lambda p: {"loc": p["mean"], "scale": p["std"]}),
+    "Gamma": ("Gamma", (("shape", "sv"), ("rate", "sv")), lambda p: {"shape": p["shape"], "scale": 1.0 / p["rate"]}),
+    "Laplace": ("Laplace", (("location", "sv"), ("scale", "s")), lambda p: {"loc": p["location"], "scale": p["scale"]}),
+    "Uniform": ("Uniform", (("low", "sv"), ("high", "sv")), lambda p: {"low": p["low"], "high": p["high"]}),
+    "Beta": ("Beta", (("alpha", "sv"), ("beta", "sv")), lambda p: {"a": p["alpha"], "b": p["beta"]}),
+    "InverseGamma": ("InverseGamma", (("shape", "sv"), ("location", "sv"), ("scale", "sv")),
+                     lambda p: {"a": p["shape"], "loc": p["location"], "scale": p["scale"]}),
+    "Cauchy": ("Cauchy", (("location", "sv"), ("scale", "sv")), lambda p: {"loc": p["location"], "scale": p["scale"]}),
+    "Gaussian/cov": ("Gaussian", (("mean", "sv"), ("cov", "sv")), None),
+    "Gaussian/prec": ("Gaussian", (("mean", "sv"), ("prec", "sv")), None),
+    "Gaussian/sqrtcov": ("Gaussian", (("mean", "sv"), ("sqrtcov", "sv")), None),
+    "Gaussian/sqrtprec": ("Gaussian", (("mean", "sv"), ("sqrtprec", "sv")), None),
+    "Lognormal": ("Lognormal", (("mean", "v"), ("cov", "sv")), None),
+    "GMRF": ("GMRF", (("mean", "v"), ("prec", "s")), None),
+    "ModifiedHalfNormal": ("ModifiedHalfNormal", (("alpha", "s"), ("beta", "s"), ("gamma", "s")), None),
+}
+# integer-valued parameters (> 1 in modulus, so that integer arithmetic differs from float arithmetic): (scalar, vector)
+_REP_VALUES = {"mean": (3, (2, -3, 4)), "std": (2, (2, 3, 5)), "shape": (3, (2, 3, 4)), "rate": (4, (2, 5, 3)),
+               "location": (2, (2, -3, 4)), "scale": (3, (2, 3, 5)), "low": (-2, (-3, -2, 2)), "high": (5, (6, 7, 9)),
+               "alpha": (2, (2, 3, 4)), "beta": (3, (3, 2, 5)), "cov": (4, (4, 2, 9)), "prec": (4, (4, 2, 9)),
+               "sqrtcov": (2, (2, 3, 5)), "sqrtprec": (2, (2, 3, 5)), "gamma": (2, (2, 3, 4))}
+
+
+def _rep_cells(tier, k):
+    for fam in REP_FAMILIES:
+        for rep in REPS:
+            yield {"kind": "rep", "family": fam, "rep": rep, "cat": k}
+
+
+def _rep_value(pname, vec, dim, k):
+    s, v = _REP_VALUES[pname]
+    bump = k if s > 0 and pname not in ("low",) else 0
+    if not vec:
+        return float(s + bump)
+    return np.array([float(v[i] + (bump if v[i] > 0 else 0)) for i in range(dim)])
+
+
+def _rep_convert(v, rep):
+    """The same integer-valued numbers in another representation."""
+    vec = isinstance(v, np.ndarray)
+    if rep == "pyint":
+        return [int(x) for x in v] if vec else int(v)
+    if rep == "list":
+        return [float(x) for x in v] if vec else float(v)
+    if rep in ("int64", "int32"):
+        t = np.int64 if rep == "int64" else np.int32
+        return v.astype(t) if vec else t(v)
+    if rep == "float32":
+        return v.astype(np.float32) if vec else np.float32(v)
+    raise ValueError(rep)
+
+
+def _rep_build(cls, vals, dim):
+    import cuqi
+    kw = dict(vals)
+    if not any(isinstance(v, (np.ndarray, list)) for v in vals.values()):
+        kw["geometry"] = dim
+    d = getattr(cuqi.distribution, cls)(**kw)
+    if d.dim != dim:
+        raise ValueError("dim %r != %d" % (d.dim, dim))
+    return d
+
+
+def _rep_draw(d, N, path, seed):
+    """Real draws under a real generator of known state (the global stream is put back afterwards)."""
+    if path == "rng":
+        return d.sample(N, rng=np.random.RandomState(seed))
+    st = np.random.get_state()
+    try:
+        np.random.seed(seed)
+        return d.sample(N)
+    finally:
+        np.random.set_state(st)
+
+
+def _eval_rep(cell, res):
+    fam, rep, k = cell["family"], cell["rep"], cell["cat"]
+    cls, pspec, textbook = REP_FAMILIES[fam]
+    comp = fam.split("/")[0]
+    facet = ("%s,rep=%s" % (fam.split("/")[1], rep)) if "/" in fam else "rep=%s" % rep
+    rtol = 1e-5 if rep == "float32" else 0.0      # derived quantities (1/rate, sqrt) are rounded in float32
+    forms = ["".join(f) for f in itertools.product(*[opts for _, opts in pspec])]
+    dims = (1, 2, 3) if comp != "ModifiedHalfNormal" else (1,)
+    agg = _Agg({"N": NS, "path": REP_PATHS, "dim": dims, "pform": tuple(forms)})
+    compared = 0
+
+    def same(a, b):
+        a, b = np.asarray(a, dtype=float), np.asarray(b, dtype=float)
+        if a.shape != b.shape:
+            return False
+        return bool(np.array_equal(a, b)) if rtol == 0.0 else bool(np.allclose(a, b, rtol=rtol, atol=1e-12))
+
+    for pform in forms:
+        for dim in dims:
+            if comp == "GMRF" and dim == 1:
+                continue
+            base = {"dim": dim, "pform": pform}
+            f64 = {pn: _rep_value(pn, c == "v", dim, k) for (pn, _), c in zip(pspec, pform)}
+            try:
+                d0 = _rep_build(cls, f64, dim)
+            except Exception as e:
+                res.refused += 1
+                res.outcomes.add("float64-construct-refused:%s" % type(e).__name__)
+                continue
+            try:
+                d1 = _rep_build(cls, {pn: _rep_convert(v, rep) for pn, v in f64.items()}, dim)
+            except Exception as e:
+                # the statement quantifies over parameter values; refusing a representation at construction is not a draw
+                res.refused += 1
+                res.transitions += 1
+                res.outcomes.add("%s-construct-refused:%s" % (rep, type(e).__name__))
+                continue
+            for N in NS:
+                for path in REP_PATHS:
+                    where = dict(base, N=N, path=path)
+                    res.state("%s/dim=%d/N=%d/%s" % (pform, dim, N, path))
+                    seed = 1000 + 17 * N + dim
+                    try:
+                        o0 = _rep_draw(d0, N, path, seed)
+                        M0 = _matrix(o0, N, dim)
+                    except Exception as e:
+                        res.refused += 1
+                        res.outcomes.add("float64-sample-raised:%s" % type(e).__name__)
+                        continue
+                    res.transitions += 2
+                    try:
+                        o1 = _rep_draw(d1, N, path, seed)
+                    except Exception as e:
+                        # one signature for all numpy scalar types when every parameter is a scalar
+                        np_scalar = "v" not in pform and rep in ("int64", "int32", "float32")
+                        agg.add(comp, "sample-raises", facet.replace("rep=" + rep, "rep=numpy-scalar") if np_scalar else facet, where,
+                                "sample(%d) raised %r for parameters given as %s although the same numbers as float64 draw" % (N, e, rep))
+                        continue
+                    prob = _wrap_problem(o1, N, d1)
+                    if prob:
+                        agg.add(comp, "sample-shape", facet, where, prob)
+                        agg.skip(where)
+                        continue
+                    M1 = _matrix(o1, N, dim)
+                    res.evaluations += 1
+                    compared += 1
+                    if not same(M1, M0):
+                        agg.add(comp, "parameter-representation", facet, where, "equal generator states, the same numbers as "
+                                "float64 and as %s: the draws differ" % rep, float64=M0, other=M1, parameters=f64)
+                    # the density the object reports must be the density of the float64 object at the float64 draws
+                    try:
+                        l0 = [_f(d0.logpdf(M0[:, j])) for j in range(N)]
+                        l1 = [_f(d1.logpdf(M0[:, j])) for j in range(N)]
+                    except Exception as e:
+                        res.count("density-refused:%s" % type(e).__name__)
+                    else:
+                        res.evaluations += 1
+                        if not close(l1, l0, rtol=max(rtol, 1e-10)):
+                            agg.add(comp, "density-representation", facet, where, "logpdf of the object built from %s parameters "
+                                    "differs from the float64 object's at its draws: %r vs %r" % (rep, l1, l0), parameters=f64)
+                    if textbook is None:
+                        continue
+                    # reference transform: the request to the primitive generator is the textbook one in float64
+                    rec = _Recorder()
+                    rng = _recording_rng(rec) if path == "rng" else None
+                    try:
+                        with _recording_installed(rec, allow_global=(path == "global")):
+                            d1.sample(N, rng=rng) if path == "rng" else d1.sample(N)
+                    except HarnessError:
+                        raise
+                    except Exception as e:
+                        agg.add(comp, "sample-raises", facet, where, "recorded sample(%d) raised %r" % (N, e))
+                        continue
+                    res.transitions += 1
+                    want = textbook({pn: np.asarray(v, dtype=float) for pn, v in f64.items()})
+                    bad = None
+                    if len(rec.calls) != 1:
+                        bad = "%d generator calls" % len(rec.calls)
+                    else:
+                        c = rec.calls[0]
+                        for a, w in want.items():
+                            try:
+                                got = np.broadcast_to(c["params"][a], c["shape"])
+                                exp = np.broadcast_to(w, c["shape"])
+                            except (KeyError, ValueError) as e:
+                                bad = "argument %s: %r" % (a, e)
+                                break
+                            if not same(got, exp):
+                                bad = "argument %s = %s, textbook %s" % (a, np.asarray(c["params"][a]).tolist(), np.asarray(w).tolist())
+                                break
+                    res.evaluations += 1
+                    if bad:
+                        agg.add(comp, "parameter-representation", facet, where, "parameters given as %s: the request to the "
+                                "primitive generator is not the textbook transform of the numbers (%s)" % (rep, bad), parameters=f64)
+                    res.traces += 1
+    if compared:
+        res.outcomes.add("%s:%s:draws==float64" % (fam, rep))
+    res.nontrivial = compared > 0
     agg.emit(res)
     return res
 
@@ -2285,6 +2502,7 @@ def cells(tier, seed):
                 continue
             out.append(c)
         out.extend(_gen_cells(tier, k))
+        out.extend(_rep_cells(tier, k))
         out.extend(_mhn_cells(tier, k))
     out.append({"kind": "gallery", "cat": k0})
     # discipline / conditional cells: names only (objects are rebuilt inside the worker)
@@ -2316,7 +2534,7 @@ _COND_NAMES = ["Gaussian/mean=None", "Gaussian/mean=callable", "Gaussian/cov=cal
                "Uniform/low=None", "Beta/alpha=None", "InverseGamma/shape=None", "Cauchy/location=None", "Cauchy/scale=callable"]
 
 _DISPATCH = {"gauss": _eval_gauss, "lognormal": _eval_lognormal, "gallery": _eval_gallery, "gmrf": _eval_gmrf,
-             "gen": _eval_gen, "mhn": _eval_mhn, "disc": _eval_disc, "cond": _eval_cond, "derived": _eval_derived,
+             "gen": _eval_gen, "rep": _eval_rep, "mhn": _eval_mhn, "disc": _eval_disc, "cond": _eval_cond, "derived": _eval_derived,
              "udd": _eval_udd}
 
 
